@@ -37,6 +37,10 @@ package gomavlib
 //@                    logArg(logLen()-1, 1).(*EventFrame).Channel == ch &&
 //@                    logArg(logLen()-1, 1).(*EventFrame).Frame == logRetAny(0, 0).(frame.Frame)
 //@   loop 0 body-ensures [stream-request-hook-before-event] logLen() == 3 ==> logCallee(1, "(*gomavlib.nodeStreamRequest).onEventFrame")
+//@   loop 0 body-ensures [stream-request-module-sees-every-frame] logRetErr(0) == nil && ch.node.nodeStreamRequest != nil ==> logLen() == 3 &&
+//@                    logCallee(1, "(*gomavlib.nodeStreamRequest).onEventFrame") && logArgIsPtr(1, 0, ch.node.nodeStreamRequest) &&
+//@                    logArgIsPtr(1, 1, logArg(2, 1).(*EventFrame))
+//@   loop 0 body-ensures [no-hook-without-the-module] ch.node.nodeStreamRequest == nil ==> logLen() == 2
 //@   loop 0 body-ensures [every-event-is-an-object-of-its-own] (logRetErr(0) == nil ==> freshPtr(logArg(logLen()-1, 1).(*EventFrame))) &&
 //@                    (logRetErr(0) != nil ==> freshPtr(logArg(1, 1).(*EventParseError)))
 //@   modifies ghost:log
